@@ -76,8 +76,8 @@ def run_check(tier, seed, replay=None):
     # parameter vectors next to the estimated one.
     same_versions = not (resets and resets[0]["versions"]["ref"] != resets[0]["versions"]["cur"])
     mtr = os.path.join(wd, "match.trace")
-    vh(["match-record", "--seed", seed, "--streams", 40 if q else 500, "--sweeps", 4 if q else 30, "--window", 4,
-        "--perturb", 2 if q else 3, "--maxplain", 3000 if q else 10000, "--out", mtr], timeout=7200)
+    vh(["match-record", "--seed", seed, "--streams", 40 if q else 300, "--sweeps", 4 if q else 20, "--window", 4,
+        "--perturb", 2 if q else 3, "--maxplain", 3000 if q else 4000, "--out", mtr], timeout=7200)
     mcases = {r["run"]: r for r in read_ndjson(mtr + ".cases")}
     macc, mrej, mstates = validate_runs("Trace_Match", wd, mtr, view="TraceView", heap="12g", timeout=6000)
     supported = sum(1 for x in read_ndjson(mtr) if x["e"] == "Reset" and x["supported"])
